@@ -1010,7 +1010,13 @@ func (cs *State) enterNewRound(height int64, round int32) {
 	validators := cs.Validators
 	if cs.Round < round {
 		validators = validators.Copy()
-		validators.IncrementProposerPriority(tmmath.SafeSubInt32(round, cs.Round))
+		// Rotate one round at a time. IncrementProposerPriority(n) rescales and centres
+		// the priorities once and then rotates n times, which does not always elect the
+		// same proposer as n calls of IncrementProposerPriority(1). A node that skips
+		// rounds must agree on the proposer with the nodes that went through every round.
+		for i := int32(0); i < tmmath.SafeSubInt32(round, cs.Round); i++ {
+			validators.IncrementProposerPriority(1)
+		}
 	}
 
 	// Setup new round
